@@ -100,8 +100,10 @@ def device_wiring(c):
     dev.add_standard_control_endpoint_placeholder = None
     ts = c.unit(dev, {"rx_data": utmi.rx_data, "rx_active": utmi.rx_active, "rx_valid": utmi.rx_valid})
     I = ts.inputs
-    c.comb("crc_unit_fed_with_utmi_rx_data", ts.sig("data_crc.rx_data"), I["rx_data"], clause="USBDevice wires data_crc.rx_data to utmi.rx_data")
-    c.comb("crc_unit_fed_with_utmi_rx_valid", ts.sig("data_crc.rx_valid"), I["rx_valid"], clause="USBDevice wires data_crc.rx_valid to utmi.rx_valid")
+    from luna.gateware.usb.usb2.packet import USBDataPacketCRC
+    crc = ts.instance(USBDataPacketCRC)        # the real CRC unit instance, whatever USBDevice.elaborate calls the submodule
+    c.comb("crc_unit_fed_with_utmi_rx_data", ts.of(crc.rx_data), I["rx_data"], clause="USBDevice wires data_crc.rx_data to utmi.rx_data")
+    c.comb("crc_unit_fed_with_utmi_rx_valid", ts.of(crc.rx_valid), I["rx_valid"], clause="USBDevice wires data_crc.rx_valid to utmi.rx_valid")
 
 
 def contracts(tier):
